@@ -101,19 +101,19 @@ type c02Features struct {
 // together with the coordinator's scrape manager and explorer, wired as cmd/kvass/coordinator.go does
 // (all three get the same *ConfigInfo from the reload callbacks)
 type persistentDisc struct {
-	cm     *prom.ConfigManager
-	sm     *kscrape.Manager
-	exp    *explore.Explore
-	d      *kdisc.TargetsDiscovery
-	ch     chan map[string][]*targetgroup.Group
-	memo   map[*TG][]*targetgroup.Group
+	cm   *prom.ConfigManager
+	sm   *kscrape.Manager
+	exp  *explore.Explore
+	d    *kdisc.TargetsDiscovery
+	ch   chan map[string][]*targetgroup.Group
+	memo map[*TG][]*targetgroup.Group
 	// the coordinator's view of the shards: where each target (hash) lives, and what each shard was last sent
 	shardOf  map[uint64]int
 	lastSent map[int]string
 	curSpec  *cfggen.Spec // the configuration loaded last (set by the reload phase)
-	sticky   bool // keep targets on their shards and post a shard's list only when it changed (as shard.needUpdate does)
-	ctx    context.Context
-	cancel context.CancelFunc
+	sticky   bool         // keep targets on their shards and post a shard's list only when it changed (as shard.needUpdate does)
+	ctx      context.Context
+	cancel   context.CancelFunc
 }
 
 func newPersistentDisc() *persistentDisc {
